@@ -350,6 +350,19 @@ func (c18) Exec(c *sim.Case, env *Env) []sim.Violation {
 		var out []byte
 		var rerr error
 		sig, pn := Guard(func() {
+			if c.Run%2 == 1 {
+				// engine history: the engine has rendered ANOTHER template before, whose headers and footers of every kind
+				// hold no placeholder (same part names as this case's). What an engine did for one template is nothing to the next.
+				decoy := document.New()
+				for _, k := range []document.HeaderFooterType{document.HeaderFooterTypeDefault, document.HeaderFooterTypeFirst, document.HeaderFooterTypeEven} {
+					_ = decoy.AddHeader(k, "plain header")
+					_ = decoy.AddFooter(k, "plain footer")
+				}
+				decoy.AddParagraph("plain body")
+				if _, e := eng.LoadTemplateFromDocument("earlier", decoy); e == nil {
+					_, _ = eng.RenderTemplateToDocument("earlier", document.NewTemplateData())
+				}
+			}
 			if _, e := eng.LoadTemplateFromDocument("t", base.D); e != nil {
 				rerr = e
 				return
